@@ -67,6 +67,10 @@ def make_case(rng, i, tier):
             if lit.isalpha() and lit.upper() in cs or True:
                 terms.append({"name": "TY", "kind": "str", "lit": lit, "ci": True, "ast": ("ilit", lit)})
                 terms.append({"name": "TZ", "kind": "str", "lit": lit, "ci": False, "ast": ("lit", lit)})
+    multi = [c for c in letters if len(c.encode()) >= 3]
+    if len(multi) >= 2 and rng.random() < 0.6:
+        # one terminal = a class over several 3-byte characters (shared lead byte, different continuation bytes)
+        terms[0] = {"name": terms[0]["name"], "kind": "re", "ast": ("cls", sorted(rng.sample(multi, min(len(multi), rng.choice([2, 3])))), False)}
     ignore = None
     if " " in cs and rng.random() < 0.5:
         ignore = {"name": "WS", "kind": "str", "lit": " ", "ci": False, "ast": ("lit", " ")}
